@@ -57,7 +57,7 @@ def run_one(m):
             if rules is None:
                 continue
             buf = []
-            rc = run_property(p, "thorough", rules, out=buf.append, root=tmp, evdir=os.path.join(tmp, "ev"))
+            rc = run_property(p, "thorough", rules, out=buf.append, root=tmp, evdir=os.path.join(tmp, "ev"), selfval=False)
             if rc != 0:
                 res[p] = rc
                 outs[p] = [l for l in buf if "VIOLATION" not in l and not l.startswith(p + " ") and "KNOWN-FINDING" not in l]
